@@ -106,6 +106,8 @@ def build(need_go=True):
         fcntl.flock(lk, fcntl.LOCK_EX)
         t0 = time.time()
         os.makedirs(os.path.join(HARNESS, "bin"), exist_ok=True)
+        os.makedirs(os.path.join(COQ, "Src"), exist_ok=True)
+        os.makedirs(os.path.join(COQ, "Corr"), exist_ok=True)
         shutil.copyfile(os.path.join(REPO, "go.sum"), os.path.join(HARNESS, "go.sum"))
         gomod = open(os.path.join(HARNESS, "go.mod")).read()
         gomod2 = re.sub(r"replace github.com/pulumi/esc => .*", "replace github.com/pulumi/esc => " + REPO, gomod)
